@@ -169,6 +169,20 @@ fn layer_check(rng: &mut Rng, kind: &str, l: LCfg, input: Sh, out: &mut Out, sam
             }
             out.count("layer_cases_with_palette_inputs_and_parameters", 1);
         }
+        // max-pool, one case in eight: most of the image holds the most negative finite float
+        // (a common "minus infinity" mask value), so that whole windows consist of it
+        2 | 3 if kind == "pool" => {
+            let keep = rng.range(0, 3);
+            for v in x.iter_mut() {
+                if rng.range(0, 9) >= keep {
+                    *v = f32::MIN;
+                }
+            }
+            if !x.is_empty() && rng.bool() {
+                x[0] = 5.0;
+            }
+            out.count("pool_cases_with_windows_of_the_most_negative_float", 1);
+        }
         _ => {}
     }
     let net = match build(&cfg, Some(&params)) {
